@@ -95,6 +95,156 @@ def real_cases(rng, nrand):
                                'copies._get_transfer_size', idx=i)
 
 
+class _StubClient:
+    """A client that answers without moving a byte: real-scale sizes are only
+    numbers to the planning code (HeadObject ContentLength, file size)."""
+
+    def __init__(self, size):
+        from unittest import mock
+        self.meta = mock.MagicMock()
+        self.size = size
+        self.calls = []
+
+    def _rec(self, op, kw):
+        self.calls.append((op, {k: v for k, v in kw.items() if k != 'Body'}))
+
+    def head_object(self, **kw):
+        self._rec('HeadObject', kw)
+        return {'ContentLength': self.size}
+
+    def copy_object(self, **kw):
+        self._rec('CopyObject', kw)
+        return {}
+
+    def put_object(self, **kw):
+        self._rec('PutObject', kw)
+        return {}
+
+    def create_multipart_upload(self, **kw):
+        self._rec('CreateMultipartUpload', kw)
+        return {'UploadId': 'u'}
+
+    def upload_part_copy(self, **kw):
+        self._rec('UploadPartCopy', kw)
+        return {'CopyPartResult': {'ETag': 'e%d' % kw['PartNumber']}}
+
+    def upload_part(self, **kw):
+        self._rec('UploadPart', dict(kw, _len=len(kw['Body'])))
+        return {'ETag': 'e%d' % kw['PartNumber']}
+
+    def complete_multipart_upload(self, **kw):
+        self._rec('CompleteMultipartUpload', kw)
+        return {}
+
+    def abort_multipart_upload(self, **kw):
+        self._rec('AbortMultipartUpload', kw)
+        return {}
+
+    def get_object(self, **kw):
+        self._rec('GetObject', kw)
+        raise RuntimeError('stub: no body at real scale')
+
+
+def decision_cases(rng, nrand, tmpdir):
+    """TransferManager.copy/upload/download driven at real scale with a stub
+    client: is the transfer multipart exactly when size >= threshold, and do the
+    requests it issues tile the object?"""
+    import s3transfer.manager as M
+    from s3transfer.futures import NonThreadedExecutor
+    from checks.c14 import _parse_range
+    thrs = [8 * MiB, 5 * GiB - 1, 5 * GiB, 5 * GiB + 1, 8 * GiB, 2 ** 33 + 5, 16 * GiB]
+    pairs = set()
+    for t in thrs:
+        for s in (t - 1, t, t + 1):
+            pairs.add((s, t))
+        for s in (5 * GiB, 5 * GiB + 1, 6 * GiB, 7 * GiB + 3):
+            pairs.add((s, t))
+    pairs.add((5 * TiB, 8 * GiB))
+    pairs.add((5 * TiB, 5 * TiB))
+    pairs.add((5 * TiB - 1, 5 * TiB))
+    for _ in range(nrand):
+        t = rng.choice([rng.randint(1, 16 * GiB), rng.choice(thrs)])
+        pairs.add((max(0, t + rng.choice([-1, 0, 1, -GiB, GiB, rng.randint(-t, 4 * GiB)])), t))
+    cid = [10 ** 6]
+    sparse = os.path.join(tmpdir, 'sparse')
+
+    def case(fn, who, size, part, res, **kw):
+        cid[0] += 1
+        return {'id': cid[0], 'fn': fn, 'size': limbs(size), 'part': limbs(part),
+                'idx': limbs(kw.get('idx', 0)), 'total': limbs(kw.get('total', 0)),
+                'res': limbs(res), 'who': who,
+                'plain': dict(kw, size=size, part=part, res=res)}
+
+    for size, thr in sorted(pairs):
+        chunk = rng.choice([GiB, 2 * GiB, 5 * GiB]) if size < TiB else 5 * GiB
+        for kind in ('copy', 'download', 'upload'):
+            if kind == 'upload' and size > 20 * GiB:
+                continue
+            cl = _StubClient(size)
+            cfg = M.TransferConfig(multipart_threshold=thr, multipart_chunksize=chunk,
+                                   max_request_concurrency=1, num_download_attempts=1)
+            tm = M.TransferManager(cl, cfg, executor_cls=NonThreadedExecutor)
+            try:
+                if kind == 'copy':
+                    fut = tm.copy({'Bucket': 'b', 'Key': 's'}, 'b', 'k')
+                elif kind == 'download':
+                    fut = tm.download('b', 'k', os.path.join(tmpdir, 'out'))
+                else:
+                    with open(sparse, 'wb') as f:
+                        f.truncate(size)
+                    fut = tm.upload(sparse, 'b', 'k')
+                try:
+                    fut.result()
+                except RuntimeError:
+                    pass
+            finally:
+                tm.shutdown()
+            ops = [o for o, _ in cl.calls]
+            who = 'TransferManager.' + kind
+            if kind == 'download':
+                gets = [kw for o, kw in cl.calls if o == 'GetObject']
+                mp = 1 if gets and 'Range' in gets[0] else 0
+                yield case('multipart', who, size, thr, mp, thr=thr)
+                if mp:
+                    st, en = _parse_range(gets[0]['Range'])
+                    yield case('range_start', who, size, chunk, st, idx=0)
+                continue
+            single = 'CopyObject' if kind == 'copy' else 'PutObject'
+            mp = 1 if 'CreateMultipartUpload' in ops else 0
+            if mp == (1 if single in ops else 0):
+                mp = 2        # both or neither: never what the specification says
+            yield case('multipart', who, size, thr, mp, thr=thr)
+            if mp != 1:
+                continue
+            parts = [kw for o, kw in cl.calls if o in ('UploadPartCopy', 'UploadPart')]
+            n = len(parts)
+            eff = None
+            if kind == 'copy' and n:
+                st0, en0 = _parse_range(parts[0]['CopySourceRange'])
+                eff = en0 + 1 if n > 1 else None
+            if kind == 'upload' and n > 1:
+                eff = parts[0]['_len']
+            if eff is None:
+                continue
+            yield case('adjust', who, size, chunk, eff)
+            yield case('num_parts', who, size, eff, n)
+            for i in sorted({0, 1, n // 2, n - 2, n - 1} & set(range(n))):
+                if parts[i]['PartNumber'] != i + 1:
+                    yield case('num_parts', who + ':PartNumber', size, eff, parts[i]['PartNumber'] - i + n - 1)
+                if kind == 'copy':
+                    st, en = _parse_range(parts[i]['CopySourceRange'])
+                    yield case('range_start', who, size, eff, st, idx=i)
+                    if i == n - 1:
+                        yield case('range_end_last', who, size, eff, en, idx=i, total=size)
+                    else:
+                        yield case('range_end_mid', who, size, eff, en, idx=i)
+                else:
+                    ln = parts[i]['_len']
+                    yield case('part_len_last' if i == n - 1 else 'part_len_mid', who, size, eff, ln, idx=i)
+    if os.path.exists(sparse):
+        os.unlink(sparse)
+
+
 def apalache(ck):
     out = tempfile.mkdtemp(prefix='verif-apa-')
     try:
@@ -133,6 +283,7 @@ def run(ck, tier, seed):
     cases = list(real_cases(rng, 3000 if tier == 'thorough' else 400))
     d = tempfile.mkdtemp(prefix='verif-c14b-')
     try:
+        cases += list(decision_cases(rng, 200 if tier == 'thorough' else 30, d))
         path = os.path.join(d, 'cases.ndjson')
         with open(path, 'w') as f:
             for c in cases:
@@ -157,7 +308,8 @@ def run(ck, tier, seed):
                    'cases': [c['plain'] | {'fn': c['fn']} for c in cases[:4]]})
         for bid in j['bad']:
             c = byid[bid]
-            clause = 'C14_AdjustedWithinLimits' if c['fn'].startswith('adjust') \
+            clause = 'C14_MultipartIffGeThreshold' if c['fn'] == 'multipart' \
+                else 'C14_AdjustedWithinLimits' if c['fn'].startswith('adjust') \
                 else ('C14_PartNumbers1toN' if c['fn'] == 'num_parts' else 'C14_RangesTile')
             ck.violation(clause, {'component': c['who'], 'fn': c['fn'],
                                   'case': c['plain'], 'scale': 'real'},
